@@ -1034,6 +1034,9 @@ bool ConnRef::generatePath(void)
     freeRoutes();
     PolyLine& output_route = m_route;
     output_route.ps = clippedPath;
+    // Keep the cached route length current; it is what the selective
+    // rerouting test compares against when an obstacle is removed or moved.
+    calcRouteDist();
  
 #ifdef PATHDEBUG
     db_printf("Output route:\n");
